@@ -274,6 +274,39 @@ def check(case):
                 if not close(sig * mix[0], sig[0][None, :] * mix[:, None], rtol=1e-12, atol=1e-300):
                     out.fail('component-proportional@Rayleigh', '%s: opacity not proportional to abundance' % gas)
 
+    # ---- each source alone: its transmittance is the exponential of its own opacity integrated along the chord,
+    # weighted by the number density (its square for collision-induced absorption).  Chord lengths are taken from the
+    # model (they are judged in C01); cloud decks index layers instead of integrating and are judged in C19.
+    try:
+        dens = np.asarray(m.densityProfile, dtype=float)
+        paths = [np.asarray(p_, dtype=float) for p_ in m.path_length]
+        for c in m.contribution_list:
+            if c.name not in per[1] or c.name == 'SimpleClouds' or (c.name == 'Absorption' and w.get('ktables')) or dup:
+                continue
+            with np.errstate(all='ignore'):
+                cut(out, 'prepare@' + c.name, c.prepare, m, W.wn)     # the summed opacity of all its components (judged above)
+            sx = np.asarray(c.sigma_xsec, dtype=float)
+            if sx.ndim != 2 or sx.shape[0] != nl or len(paths) != nl:
+                continue
+            power = 2 if c.name == 'CIA' else 1
+            tau_c = np.zeros((nl, sx.shape[1]))
+            for l in range(nl):
+                k = np.arange(nl - l)
+                tau_c[l] = np.sum(sx[l + k] * (paths[l][k] * dens[l + k] ** power)[:, None], axis=0)
+            out.applies('source-path-integral')
+            with np.errstate(all='ignore'):
+                want_t = np.exp(-tau_c)
+            got_t = np.asarray(per[1][c.name][1], dtype=float)
+            if got_t.shape != want_t.shape:
+                out.fail('source-path-integral@%s,shape' % c.name, '%s vs %s' % (got_t.shape, want_t.shape))
+                continue
+            a_, b_ = neglog(got_t), tau_c
+            ok = (got_t >= 1e-300) & np.isfinite(b_)
+            if not close(a_[ok], b_[ok], rtol=1e-9, atol=1e-12) or np.any(got_t[~ok & np.isfinite(b_)] > 1e-299):
+                out.fail('source-path-integral@%s' % c.name, 'transmittance of the source alone is not exp(-sum opacity x density%s x path): max rel %.2e'
+                         % ('^2' if power == 2 else '', maxrel(a_[ok], b_[ok])))
+    except CutError:
+        pass
     # ---- order independence ---------------------------------------------------------------------
     Rp = w['radius'] * synth.RJUP
     Rs = w['star_R'] * RSUN
